@@ -378,8 +378,8 @@ def rule_dims(chk, prog):
     chk.check(bool(sinlat) and alg.equal(A.conv(lat), sp.asin(A.conv(sinlat[0])) * 180 / sp.pi), rule, f'{site}: latitude in degrees = arcsin(sin θ)·180/π', sym.show(lat, maxdepth=6)[:100], loc)
   lon = table.get('XR_LON_NAME')
   if lon is not None:
-    src = [x for x in sym.walk(lon) if x.k == 'bin' and x.a[0] == '*' and x.a[2] == sym.const(180)]
-    chk.check(bool(src) and alg.equal(A.conv(lon), A.conv(src[0].a[1]) * 180 / sp.pi), rule, f'{site}: longitude in degrees = λ·180/π', sym.show(lon, maxdepth=6)[:100], loc)
+    src = [o for x in sym.walk(lon) if x.k == 'bin' and x.a[0] == '*' and sym.const(180) in x.a[1:3] for o in x.a[1:3] if o != sym.const(180)]
+    chk.check(bool(src) and alg.equal(A.conv(lon), A.conv(src[0]) * 180 / sp.pi), rule, f'{site}: longitude in degrees = λ·180/π', sym.show(lon, maxdepth=6)[:100], loc)
   # realization / sample / time are prepended to shapes and names in the same order
   g = prog.func(f'{XU}._maybe_update_shape_and_dim_with_realization_time_sample')
   r, _, _ = ev.run(g)
